@@ -90,6 +90,7 @@ def oblig(r):
 
 
 # ----------------------------------------------------------------------------- API-call programs
+FINALIZING = ('Finalize', 'SetPenalty', 'SetConstraints', 'SetStrictRanges', 'SetEvalMon', 'SetGenMon', 'Solve0', 'Solve1')
 OPS = ('Step', 'SetPenalty', 'SetConstraints', 'SetStrictRanges', 'SetLimitsNew', 'Finalize', 'SetEvalMon', 'Solve1', 'SetGenMon', 'Solve0')
 
 
@@ -119,7 +120,12 @@ def program(kind, prog, dim=1, nomon=False):
         since = 0              # number of cost calls made before the current monitor chain was first installed
         objective_changed_at = []
         try:
+            flushed = False
             for j, op in enumerate(prog):
+                # Powell logs a generation's record lazily; Finalize (called by every Set*) on a live solver flushes it.  Histories
+                # in which that happens with nothing pending, or which continue afterwards, are the recorded finding D17.
+                hazard = kind == 'Powell' and (flushed or (op in FINALIZING and not op.startswith('Solve') and len(w.callbacks) == 1)
+                                               or (op == 'SetGenMon' and len(w.callbacks) >= 1))
                 if op == 'Step':
                     s.Step(callback=w.callback)
                 elif op == 'SetPenalty':
@@ -169,6 +175,12 @@ def program(kind, prog, dim=1, nomon=False):
                     eh = [L.scalar(e) for e in s.energy_history]
                     obs.append(('energy-history-ends-in-best@%d:%s' % (j, op), const(len(eh) > 0) if not len(eh) else (eq(eh[-1], L.scalar(s.bestEnergy)) if not isinf(eh[-1]) else const(isinf(L.scalar(s.bestEnergy))))))
                 obs.append(('evaluations==total-cost-calls@%d:%s' % (j, op), eq(s.evaluations, len(w.calls))))
+                if w.callbacks:
+                    # one callback per iteration (checked by the step instances); generation 0 is the first of them
+                    tag = '-powell-after-finalizing-a-live-run' if hazard else ''
+                    obs.append(('generations==completed-iterations%s@%d:%s' % (tag, j, op), const(s.generations == len(w.callbacks) - 1)))
+                if op in FINALIZING and w.callbacks:
+                    flushed = True
                 if mons:
                     cur = mons[-1]
                     calls, vals = w.calls[since:], w.values[since:]
